@@ -79,11 +79,18 @@ class StatementTap:
 
     def __init__(self):
         self.items = []
+        self.runners = []
         self.session_events = []
+
+    def of_runner(self, lr):
+        """the holders of the statements of this runner only (a scalar sub-query inside an expression
+        makes the library start a nested runner, whose statements are not part of the script)"""
+        return [it for it, r in zip(self.items, self.runners) if r is lr]
 
     def __call__(self, event, **kw):
         if event == "runner.statement":
             self.items.append((kw["sql"], kw["holder"]))
+            self.runners.append(kw["runner"])
         elif event.startswith("session."):
             self.session_events.append((event, kw))
 
@@ -94,3 +101,103 @@ class StatementTap:
 
     def __exit__(self, *a):
         tapmod.set_listener(None)
+
+
+# ---------------------------------------------------------------------------
+# full graphs: serialisation to Gallina (NX/Graph.v, Holder/Build.v) and the
+# implementation-side canonical strings that mirror Build.show_*
+# ---------------------------------------------------------------------------
+import hashlib
+
+
+def _digest(s: str) -> str:
+    return hashlib.sha1(s.encode("utf-8", "replace")).hexdigest()[:16]
+
+
+def g_dataset(d) -> str:
+    if isinstance(d, Table):
+        return ("{| dk := KTable; deq := %s; dstr := %s; dschema := %s |}"
+                % (coq_string(str(d)), coq_string(str(d)), coq_string(str(d.schema))))
+    if isinstance(d, Path):
+        return "{| dk := KPath; deq := %s; dstr := %s; dschema := \"\" |}" % (coq_string(str(d)), coq_string(str(d)))
+    if isinstance(d, SubQuery):
+        return ("{| dk := KSubq; deq := %s; dstr := %s; dschema := \"\" |}"
+                % (coq_string(_digest(d.query_raw)), coq_string(str(d))))
+    raise TypeError(repr(d))
+
+
+def g_node(n) -> str:
+    if isinstance(n, (Table, Path, SubQuery)):
+        return "NData " + g_dataset(n)
+    if isinstance(n, Column):
+        ps = "; ".join(g_dataset(p) for p in n.parent_candidates)
+        return "NCol {| craw := %s; cparents := [%s] |}" % (coq_string(n.raw_name), ps)
+    if isinstance(n, str):
+        return "NStr " + coq_string(n)
+    raise TypeError(repr(n))
+
+
+def g_graph(g) -> str:
+    ns = []
+    for n, attrs in g.nodes(data=True):
+        a = "; ".join("(%s, %s)" % (coq_string(k), "true" if v is True else "false") for k, v in attrs.items()
+                      if isinstance(v, bool))
+        ns.append("(%s, [%s])" % (g_node(n), a))
+    es = []
+    for u, v, attrs in g.edges(data=True):
+        idx = attrs.get("index")
+        es.append("(%s, %s, {| etype := %s; eindex := %s |})"
+                  % (g_node(u), g_node(v), coq_string(str(attrs.get("type", ""))),
+                     "None" if idx is None else "Some %d" % idx))
+    return "{| gnodes := [%s]; gedges := [%s] |}" % ("; ".join(ns), "; ".join(es))
+
+
+def g_holder(h) -> str:
+    rn = "; ".join("(%s, %s)" % (g_node(a), g_node(b)) for a, b in h.rename)
+    return "{| hg := %s; h_renames := [%s] |}" % (g_graph(h.graph), rn)
+
+
+def g_provider(truthy: bool, cols: dict) -> str:
+    cs = "; ".join("(%s, [%s])" % (coq_string(t), "; ".join(coq_string(c) for c in cl)) for t, cl in cols.items())
+    return "{| p_truthy := %s; p_cols := [%s] |}" % ("true" if truthy else "false", cs)
+
+
+def s_dataset(d) -> str:
+    return ("T:" if isinstance(d, Table) else "P:" if isinstance(d, Path) else "Q:") + str(d)
+
+
+def s_node(n) -> str:
+    if isinstance(n, (Table, Path, SubQuery)):
+        return s_dataset(n)
+    if isinstance(n, Column):
+        return "C:" + str(n) + "{" + ",".join(s_dataset(p) for p in n.parent_candidates) + "}"
+    return "A:" + str(n)
+
+
+def s_graph(g) -> str:
+    ns = sorted(s_node(n) + "[" + ",".join(sorted(k for k, v in a.items() if v is True)) + "]" for n, a in g.nodes(data=True))
+    es = sorted(s_node(u) + ">" + s_node(v) + ":" + str(a.get("type", "")) for u, v, a in g.edges(data=True))
+    return "N=" + ";".join(ns) + "#E=" + ";".join(es)
+
+
+def s_roles(sh) -> str:
+    f = lambda xs: ",".join(sorted(s_node(x) for x in xs))
+    return "S=%s;T=%s;I=%s" % (f(sh.source_tables), f(sh.target_tables), f(sh.intermediate_tables))
+
+
+def s_paths(paths) -> str:
+    return ";".join(sorted({"<".join(s_node(n) for n in p) for p in paths}))
+
+
+def table_parents(graphs) -> list:
+    """every Table that occurs as a node or as a column's parent candidate"""
+    out = {}
+    for g in graphs:
+        for n in g.nodes:
+            if isinstance(n, Table):
+                out[str(n)] = n
+            if isinstance(n, Column):
+                for p in n.parent_candidates:
+                    if isinstance(p, Table):
+                        out[str(p)] = p
+    return list(out.values())
